@@ -103,6 +103,9 @@ theorem expiry_clears (c : Cfg) (s : MSt) (op : Op) (he : expired s op.now = tru
   | remind now =>
     simp only [Op.now] at he
     rw [step_remind]; simp [getAck_of_expired, he]
+  | fire now =>
+    simp only [Op.now] at he
+    rw [step_fire]; simp [he, ackNow]
 
 /-- **stored_expiry_is_requested.**  Every entry point stores the expiry the operation asked for (the plain
     external command has no such argument and stores none). -/
@@ -177,6 +180,7 @@ theorem downtime_bit (c : Cfg) (s : MSt) (op : Op) :
   | downtime on now => rw [step_downtime]; simp [getAck_rest]
   | pause on now => rw [step_pause]; simp [getAck_rest]
   | remind now => rw [step_remind]; simp [getAck_rest]
+  | fire now => rw [step_fire]
 
 /-- After an accepted result the object is a problem iff the result is not OK/Up. -/
 theorem problem_after_result (c : Cfg) (s : MSt) (new : SState) (es ee now : Int)
@@ -212,6 +216,7 @@ theorem ack_notify_once (c : Cfg) (s : MSt) (op : Op) :
   | downtime on now => rw [step_downtime]; simp
   | pause on now => rw [step_pause]; simp
   | remind now => rw [step_remind]; simp
+  | fire now => rw [step_fire]; simp
 
 /-- **refuse_ok_or_acked.**  The API action and the external commands refuse an object that is OK/Up; every entry
     point — the cluster handler included — refuses an object whose acknowledgement has not run out.  A refused
@@ -428,12 +433,155 @@ theorem reminder_only_from_remind (c : Cfg) (s : MSt) (op : Op) (h : ∀ now, op
   | downtime on now => rw [step_downtime]
   | pause on now => rw [step_pause]
   | remind now => exact absurd rfl (h now)
+  | fire now => rw [step_fire]
+
+/-- **stash_kept_while_acked.**  "Problem notifications are withheld (to be handled by C02 afterwards)" — also by the
+    handler that does the handling: a run of `Checkable::FireSuppressedNotifications` on an object whose acknowledgement
+    has not run out (or that is in a downtime, or paused) requests nothing and leaves the stash as it is; it sets nothing,
+    touches no comment, and the acknowledgement is what the lazy expiry leaves. -/
+theorem stash_kept_while_acked (c : Cfg) (s : MSt) (now : Int)
+    (h : ackNow s now ≠ .none ∨ s.inDowntime = true ∨ s.paused = true) :
+    let p := step c s (.fire now)
+    p.2.nProbN = 0 ∧ p.2.nRecN = 0 ∧ p.1.suppProblem = s.suppProblem ∧ p.1.suppRecovery = s.suppRecovery ∧
+    p.1.ack = ackNow s now ∧ p.2.nSet = 0 ∧ p.2.nAckN = 0 ∧ p.1.comments = s.comments ∧ p.1.stateBefore = s.stateBefore := by
+  have hrel : fireRelease s now = false := by
+    rcases h with h | h | h
+    · simp [fireRelease, h]
+    · simp [fireRelease, h]
+    · simp [fireRelease, fireConsiders, h]
+  rw [step_fire]
+  simp [hrel]
+
+/-- **stash_released_after_clearing.**  Once the acknowledgement is gone — removed, cleared by a result, or run out: this
+    reader performs the lazy expiry like any other — and the object is neither in a downtime nor paused and in a hard
+    state, the next run empties the stash and requests the notification that is still owed exactly once: none if the
+    state is back to what it was before the suppression (Up/Down for hosts), otherwise one of the type of the *current*
+    state (Problem for a problem, Recovery for OK/Up) — never both. -/
+theorem stash_released_after_clearing (c : Cfg) (s : MSt) (now : Int) (hp : s.paused = false) (hd : s.inDowntime = false)
+    (ha : ackNow s now = .none) (hh : s.base.stype = .hard) (hs : s.suppProblem = true ∨ s.suppRecovery = true) :
+    let p := step c s (.fire now)
+    let owed := stateChange c.kind s.stateBefore s.base.state
+    p.1.suppProblem = false ∧ p.1.suppRecovery = false ∧
+    p.2.nProbN = (if owed && !isOK c.kind s.base.state then 1 else 0) ∧
+    p.2.nRecN = (if owed && isOK c.kind s.base.state then 1 else 0) ∧ p.2.nProbN + p.2.nRecN ≤ 1 ∧ p.1.ack = .none := by
+  have hrel : fireRelease s now = true := by
+    rcases hs with hs | hs <;> simp [fireRelease, fireConsiders, hp, hd, ha, hh, hs]
+  rw [step_fire]
+  cases stateChange c.kind s.stateBefore s.base.state <;> cases isOK c.kind s.base.state <;> simp [hrel, ha]
+
+/-- **no_problem_notification_while_acked.**  Whatever the operation — result, acknowledge, removal, look, timer, reminder
+    handler, suppressed-notification handler —: if the object is acknowledged after it, the operation requested no Problem
+    notification and attempted no reminder. -/
+theorem no_problem_notification_while_acked (c : Cfg) (s : MSt) (op : Op) (h : (step c s op).1.ack ≠ .none) :
+    (step c s op).2.nProbN = 0 ∧ (step c s op).2.nRem = 0 := by
+  cases op with
+  | result new es ee now =>
+    refine ⟨problem_withheld_while_acked c s new es ee now h, ?_⟩
+    cases hst : stale s.base ⟨new, es, now⟩
+    · rw [step_result c s new es ee now hst]
+    · rw [step_result_stale c s new es ee now hst]
+  | ack via sticky notify persistent expiry now =>
+    rw [step_ack]
+    cases hc : (preRefuse c s via expiry now || ackNow s now != .none) <;> simp
+  | remove via now => rw [step_remove]; simp
+  | advance now => rw [step_advance]; simp
+  | pump now fired => rw [step_pump]; simp
+  | downtime on now => rw [step_downtime]; simp
+  | pause on now => rw [step_pause]; simp
+  | remind now =>
+    rw [step_remind] at h ⊢
+    simp only [getAck_ack] at h ⊢
+    simp [h]
+  | fire now =>
+    rw [step_fire] at h ⊢
+    simp only at h
+    simp [fireRelease, h]
+
+/-- … over whole histories: at no look of any history, from any start state, is the object acknowledged while the
+    operation before the look requested a Problem notification or attempted a reminder. -/
+theorem trace_no_problem_notification_while_acked (c : Cfg) (ops : List Op) :
+    ∀ (s : MSt), ∀ p ∈ trace c s ops, p.2.ack ≠ .none → p.2.nProbN = 0 ∧ p.2.nRem = 0 := by
+  induction ops with
+  | nil => intro s p hp; simp [trace] at hp
+  | cons op ops ih =>
+    intro s p hp
+    simp only [trace, List.mem_cons] at hp
+    rcases hp with hp | hp
+    · subst hp
+      intro h
+      exact no_problem_notification_while_acked c s op h
+    · exact ih _ p hp
+
+/-- **stash_only_emptied_by_handler.**  What was withheld is not lost: no operation but a run of the suppressed-notification
+    handler that finds the object unacknowledged, out of downtime, unpaused and in a hard state takes a state notification
+    out of the stash. -/
+theorem stash_only_emptied_by_handler (c : Cfg) (s : MSt) (op : Op)
+    (h : ∀ now, op = .fire now → fireRelease s now = false) :
+    (s.suppProblem = true → (step c s op).1.suppProblem = true) ∧
+    (s.suppRecovery = true → (step c s op).1.suppRecovery = true) := by
+  cases op with
+  | result new es ee now =>
+    cases hst : stale s.base ⟨new, es, now⟩
+    · rw [step_result c s new es ee now hst]
+      constructor <;> (intro hs; simp [hs])
+    · rw [step_result_stale c s new es ee now hst]; simp [getAck_rest]
+  | ack via sticky notify persistent expiry now =>
+    rw [step_ack]
+    cases hc : (preRefuse c s via expiry now || ackNow s now != .none) <;> simp [getAck_rest]
+  | remove via now => rw [step_remove]; simp
+  | advance now => rw [step_advance]; simp [getAck_rest]
+  | pump now fired => rw [step_pump]; simp [getAck_rest, pumped]
+  | downtime on now => rw [step_downtime]; simp [getAck_rest]
+  | pause on now => rw [step_pause]; simp [getAck_rest]
+  | remind now => rw [step_remind]; simp [getAck_rest]
+  | fire now =>
+    rw [step_fire]
+    simp [h now rfl]
+
+/-- A change between two not-OK/Up states of an object in a hard state is a hard state change for which a Problem
+    notification is due (C01/C02's rule), and leaves the object in a hard state. -/
+theorem send_hard_problem_change (c : Cfg) (b : St) (new : SState) (es now : Int) (hh : b.stype = .hard)
+    (hno : isOK c.kind b.state = false) (hnn : isOK c.kind new = false) (hsc : stateChange c.kind b.state new = true) :
+    sendNotification c b new = true ∧ (stepCore c b ⟨new, es, now⟩).1.stype = .hard ∧ (stepCore c b ⟨new, es, now⟩).1.state = new := by
+  simp [sendNotification, nextTypeAttempt, hardChangeOf, stepCore, hh, hno, hnn, hsc]
+
+/-- **withheld_problem_delivered_after_clearing** (end to end).  A hard problem with a sticky acknowledgement that has not
+    run out changes to another not-OK/Up state: the Problem notification is withheld and stashed, the acknowledgement stays.
+    (1) Remove-acknowledgement through any entry point, then a run of the suppressed-notification handler: one cleared
+    event, then exactly one Problem notification and an empty stash.  (2) No removal, but the handler runs after the
+    expiry: it notices the expiry itself (one cleared event) and requests the one Problem notification.  (3) The handler
+    runs while the acknowledgement has not run out: nothing is requested, the stash stays. -/
+theorem withheld_problem_delivered_after_clearing (c : Cfg) (s : MSt) (new : SState) (es ee now : Int) (via : RVia)
+    (t1 t2 : Int) (hst : stale s.base ⟨new, es, now⟩ = false)
+    (hh : s.base.stype = .hard) (hno : isOK c.kind s.base.state = false) (hnn : isOK c.kind new = false)
+    (hsc : stateChange c.kind s.base.state new = true)
+    (ha : s.ack = .sticky) (he : expired s now = false)
+    (hP : s.suppProblem = false) (hR : s.suppRecovery = false) (hpa : s.paused = false) (hdt : s.inDowntime = false) :
+    (trace c s [.result new es ee now, .remove via t1, .fire t2]).map
+        (fun p => (p.2.ack, p.2.nProbN, p.2.nRecN, p.2.suppP, p.2.nClr)) =
+      [(.sticky, 0, 0, true, 0), (.none, 0, 0, true, 1), (.none, 1, 0, false, 0)] ∧
+    ((s.expiry ≠ 0 ∧ s.expiry < t2) →
+      (trace c s [.result new es ee now, .fire t2]).map (fun p => (p.2.ack, p.2.nProbN, p.2.nRecN, p.2.suppP, p.2.nClr)) =
+        [(.sticky, 0, 0, true, 0), (.none, 1, 0, false, 1)]) ∧
+    (¬ (s.expiry ≠ 0 ∧ s.expiry < t2) →
+      (trace c s [.result new es ee now, .fire t2]).map (fun p => (p.2.ack, p.2.nProbN, p.2.nRecN, p.2.suppP, p.2.nClr)) =
+        [(.sticky, 0, 0, true, 0), (.sticky, 0, 0, true, 0)]) := by
+  have hs := send_hard_problem_change c s.base new es now hh hno hnn hsc
+  refine ⟨?_, ?_, ?_⟩
+  · simp [trace, obsOf, step_result c s new es ee now hst, step_remove, step_fire, fireRelease, fireConsiders, ackNow,
+      ackAfterResult, clearsOnChange, expired_mk, hs, hh, hno, hnn, hsc, ha, he, hP, hR, hpa, hdt, Ack.ind]
+  · intro hx
+    simp [trace, obsOf, step_result c s new es ee now hst, step_fire, fireRelease, fireConsiders, ackNow, ackAfterResult,
+      clearsOnChange, expired_mk, hs, hh, hno, hnn, hsc, ha, he, hP, hR, hpa, hdt, hx]
+  · intro hx
+    simp [trace, obsOf, step_result c s new es ee now hst, step_fire, fireRelease, fireConsiders, ackNow, ackAfterResult,
+      clearsOnChange, expired_mk, hs, hh, hno, hnn, hsc, ha, he, hP, hR, hpa, hdt, hx]
 
 /-- **model_trace_meets_spec** (the whole property as one statement).  For every configuration, every start state
     with matching bookkeeping and every finite sequence of acknowledge / remove / result / time-advance operations
     through the API action, the external commands (with and without `_EXPIRE`) and the cluster events, runs of the
-    comment-expiry timer, due reminders, downtimes and pausing coming and going — with arbitrary times, expiry values and flags — the
-    model's trace satisfies the executable specification `specTrace` (all 30 clauses, no mask). -/
+    comment-expiry timer, due reminders, runs of the suppressed-notification handler, downtimes and pausing coming and going — with arbitrary times, expiry values and flags — the
+    model's trace satisfies the executable specification `specTrace` (all 32 clauses, no mask). -/
 theorem model_trace_meets_spec (c : Cfg) (sp : SpecSt) (s : MSt) (hr : Rel sp s) (ops : List Op) :
     specTrace c sp (trace c s ops) = none :=
   spec_trace_rel c ops sp s hr
@@ -459,7 +607,7 @@ def exBase : St := { pending with state := .critical, stype := .hard, attempt :=
 def exNormal : MSt :=
   { base := exBase, ack := .normal, expiry := 2000,
     comments := [⟨1005, false, 2000⟩, ⟨1005, true, 2000⟩], suppProblem := false, suppRecovery := false,
-    inDowntime := false, paused := false }
+    inDowntime := false, paused := false, stateBefore := .ok }
 
 def exSticky : MSt := { exNormal with ack := .sticky }
 
@@ -565,6 +713,31 @@ example : (step exCfg exNormal (.remind 1500)).2.nRem = 0 ∧ (step exCfg exNorm
     (step exCfg { exNormal with ack := .none, inDowntime := true } (.remind 1500)).2.nRem = 0 ∧
     (step exCfg { exNormal with ack := .none, base := { exBase with stype := .soft } } (.remind 1500)).2.nRem = 0 := by decide
 
+-- `stash_kept_while_acked` / `stash_released_after_clearing`: a hard CRITICAL service, sticky acknowledgement until 2000,
+-- goes WARNING at 1100 (Problem stashed, state before: CRITICAL).  The handler at 1500 keeps the stash and requests
+-- nothing; at 2001 it notices the expiry (one cleared event), requests the one Problem notification and empties the stash;
+-- had the service gone back to CRITICAL meanwhile, nothing would be owed; a recovery to OK is announced as a Recovery
+def exStashed : MSt := (step exCfg exSticky (.result .warning 1100 1100 1100)).1
+
+example : exStashed.suppProblem = true ∧ exStashed.stateBefore = .critical ∧ exStashed.ack = .sticky ∧
+    (step exCfg exStashed (.fire 1500)).2.nProbN = 0 ∧ (step exCfg exStashed (.fire 1500)).1.suppProblem = true ∧
+    (step exCfg exStashed (.fire 2001)).2.nProbN = 1 ∧ (step exCfg exStashed (.fire 2001)).2.nClr = 1 ∧
+    (step exCfg exStashed (.fire 2001)).1.suppProblem = false ∧
+    (step exCfg (step exCfg exStashed (.remove .api 1200)).1 (.fire 1201)).2.nProbN = 1 ∧
+    (step exCfg (step exCfg exStashed (.result .critical 1200 1200 1200)).1 (.fire 2001)).2.nProbN = 0 ∧
+    (step exCfg (step exCfg exStashed (.result .critical 1200 1200 1200)).1 (.fire 2001)).1.suppProblem = false ∧
+    (step exCfg (step exCfg exStashed (.result .ok 1200 1200 1200)).1 (.fire 1201)).2.nRecN = 1 ∧
+    (step exCfg { exStashed with inDowntime := true } (.fire 2001)).2.nProbN = 0 ∧
+    (step exCfg { exStashed with inDowntime := true } (.fire 2001)).2.raw = .sticky ∧
+    (step exCfg { exStashed with paused := true } (.fire 2001)).1.suppProblem = true := by decide
+
+-- the hypotheses of `withheld_problem_delivered_after_clearing` are satisfiable: `exSticky` going CRITICAL → WARNING at 1100
+example : stale exSticky.base ⟨.warning, 1100, 1100⟩ = false ∧ exSticky.base.stype = .hard ∧
+    isOK exCfg.kind exSticky.base.state = false ∧ isOK exCfg.kind .warning = false ∧
+    stateChange exCfg.kind exSticky.base.state .warning = true ∧ exSticky.ack = .sticky ∧ expired exSticky 1100 = false ∧
+    exSticky.suppProblem = false ∧ exSticky.suppRecovery = false ∧ exSticky.paused = false ∧ exSticky.inDowntime = false := by
+  decide
+
 /-- A history through all entry points that exercises every kind of clearing. -/
 def exOps : List Op :=
   [.result .critical 1010 1010 1010, .ack .api false true false 1100 1020, .result .critical 1030 1030 1030,
@@ -572,7 +745,7 @@ def exOps : List Op :=
    .ack .cluster false true false 0 1065, .result .ok 1070 1070 1070, .result .unknown 1080 1080 1080,
    .ack .cluster true true false 1090 1085, .advance 1095, .ack .extExpire false true false 1105 1100, .pump 1104 true,
    .downtime true 1105, .pump 1106 true, .remove .api 1110, .pause true 1111, .ack .cluster true true false 0 1112,
-   .pause false 1113, .result .warning 1120 1120 1120, .remind 1125]
+   .pause false 1113, .result .warning 1120 1120 1120, .remind 1125, .fire 1126, .remove .ext 1130, .fire 1131]
 
 example :
     (trace exCfg init exOps).map (fun p => (p.2.acc, p.2.ack, p.2.nSet, p.2.nClr)) =
@@ -580,7 +753,7 @@ example :
        (true, .sticky, 0, 0), (false, .sticky, 0, 0), (true, .none, 0, 1), (true, .none, 0, 0), (true, .sticky, 1, 0),
        (true, .none, 0, 1), (true, .normal, 1, 0), (true, .normal, 0, 0), (true, .normal, 0, 0), (true, .none, 0, 1),
        (true, .none, 0, 0), (true, .none, 0, 0), (true, .sticky, 1, 0), (true, .sticky, 0, 0), (true, .sticky, 0, 0),
-       (true, .sticky, 0, 0)] := by
+       (true, .sticky, 0, 0), (true, .sticky, 0, 0), (true, .none, 0, 1), (true, .none, 0, 0)] := by
   decide
 
 -- the regression case of F-C06a: the acknowledgement set by the `_EXPIRE` command stores its expiry and has run out at
@@ -717,6 +890,31 @@ example : specTrace exCfg { state := .critical, ack := .none, expiry := 0, comme
         attempt := 1, nSet := 0, nClr := 0, nAckN := 0, nProbN := 0, comments := [],
         raw := .none, sevAck := false, suppP := false, suppR := false, nRecN := 0, nRem := 0 })]
     = some .notifIffDue := by decide
+
+/-- … a stashed Problem notification that the suppressed-notification handler sends although the object is still
+    acknowledged … -/
+example : specTrace exCfg { state := .warning, ack := .sticky, expiry := 0, comments := [], suppP := true, before := .critical }
+    [(.fire 1100,
+      { acc := true, ack := .sticky, expiry := 0, handled := true, problem := true, state := .warning, stype := .hard,
+        attempt := 1, nSet := 0, nClr := 0, nAckN := 0, nProbN := 1, comments := [],
+        raw := .sticky, sevAck := true, suppP := false, suppR := false, nRecN := 0, nRem := 0 })]
+    = some .problemWithheld := by decide
+
+/-- … a stash that is dropped while the object is acknowledged (the notification would never be sent) … -/
+example : specTrace exCfg { state := .warning, ack := .sticky, expiry := 0, comments := [], suppP := true, before := .critical }
+    [(.fire 1100,
+      { acc := true, ack := .sticky, expiry := 0, handled := true, problem := true, state := .warning, stype := .hard,
+        attempt := 1, nSet := 0, nClr := 0, nAckN := 0, nProbN := 0, comments := [],
+        raw := .sticky, sevAck := true, suppP := false, suppR := false, nRecN := 0, nRem := 0 })]
+    = some .stashWithheld := by decide
+
+/-- … a stash that is emptied after the clearing without the owed Problem notification, or with two … -/
+example : specTrace exCfg { state := .warning, ack := .none, expiry := 0, comments := [], suppP := true, before := .critical }
+    [(.fire 1100,
+      { acc := true, ack := .none, expiry := 0, handled := false, problem := true, state := .warning, stype := .hard,
+        attempt := 1, nSet := 0, nClr := 0, nAckN := 0, nProbN := 0, comments := [],
+        raw := .none, sevAck := false, suppP := false, suppR := false, nRecN := 0, nRem := 0 })]
+    = some .stashReleased := by decide
 
 /-- … and a reminder for an acknowledged problem. -/
 example : specTrace exCfg { state := .critical, ack := .sticky, expiry := 0, comments := [] }
